@@ -622,7 +622,12 @@ void updateUnitsMapWithStandardUnit(const std::string &name, UnitsMap &unitsMap,
 void updateUnitsMap(const UnitsPtr &units, UnitsMap &unitsMap, double exp = 1.0)
 {
     if (units->isBaseUnit()) {
-        auto unitsName = units->name();
+        // An imported base unit is the base unit it imports, whatever it is called in the importing model.
+        auto baseUnits = units;
+        while (baseUnits->isImport()) {
+            baseUnits = baseUnits->importSource()->model()->units(baseUnits->importReference());
+        }
+        auto unitsName = baseUnits->name();
         auto found = unitsMap.find(unitsName);
         if (found == unitsMap.end()) {
             unitsMap.emplace(unitsName, exp);
